@@ -367,9 +367,12 @@ pub struct ExchangedCfg {
 
 impl ExchangedCfg {
     pub(crate) fn write(&self, mut writer: impl io::Write) -> Result<(), io::Error> {
-        writer.write_u64::<LE>(
-            self.connection_timeout.unwrap_or_default().as_millis().min(u64::MAX as u128) as u64
-        )?;
+        let timeout_ms = match self.connection_timeout {
+            // Zero is transmitted for no timeout, thus a shorter timeout is rounded up to one millisecond.
+            Some(timeout) => timeout.as_millis().clamp(1, u64::MAX as u128) as u64,
+            None => 0,
+        };
+        writer.write_u64::<LE>(timeout_ms)?;
         writer.write_u32::<LE>(self.chunk_size)?;
         writer.write_u32::<LE>(self.port_receive_buffer)?;
         writer.write_u16::<LE>(self.connect_queue)?;
